@@ -14,6 +14,9 @@ From the working tree:
                               statement skeleton, the discarded key(s), the class raised for unknown names
   FieldWrapper.default / set_default
                               the "was a default set" test (`self._default is not None`)
+  _create_dataclass_instance  the test under which an Optional[Dataclass] member comes back as None, compiled
+                              (`opt_guard_gen optional dset dinst`); DataclassWrapper.__init__'s Optional arm and the
+                              `required` setter (descendants of an Optional member are never required)
   ArgumentParser._instantiate_dataclasses
                               the keys popped from the constructor arguments before the constructor call: none
                               (before the `_type_` fix) or `constructor_args.pop(DC_TYPE_KEY | "<lit>", None)`;
@@ -428,6 +431,76 @@ def _ctor_strip(parsing, ser):
     return strip
 
 
+def _opt_guard(parsing):
+    """the test of _create_dataclass_instance under which an Optional member may come back as None, compiled over
+    (optional, `_default is not None`, `some entry of .defaults is not None/SUPPRESS`); the loop that follows it is checked textually"""
+    fn = find_def(parsing, "_create_dataclass_instance")
+    if [a.arg for a in fn.args.args] != ["wrapper", "constructor", "constructor_args"]:
+        raise Unrecognised("_create_dataclass_instance signature")
+    body = clean(fn.body)
+    if len(body) != 2 or not isinstance(body[0], ast.If) or body[0].orelse or unparse(body[1]) != "return constructor(**constructor_args)":
+        raise Unrecognised("_create_dataclass_instance: statement skeleton " + " | ".join(unparse(x)[:50] for x in body))
+
+    def ex(n):
+        if isinstance(n, ast.BoolOp):
+            op = " && " if isinstance(n.op, ast.And) else " || "
+            return "(" + op.join(ex(v) for v in n.values) + ")"
+        if isinstance(n, ast.UnaryOp) and isinstance(n.op, ast.Not):
+            return f"(negb {ex(n.operand)})"
+        t = unparse(n)
+        atoms = {
+            "wrapper.optional": "optional",
+            "wrapper.default is None": "(negb dset)",
+            "wrapper.default is not None": "dset",
+            "all((default in (None, argparse.SUPPRESS) for default in wrapper.defaults))": "(negb dinst)",
+            "not wrapper.defaults": "(negb dinst)",
+        }
+        if t in atoms:
+            return atoms[t]
+        raise Unrecognised("_create_dataclass_instance: test " + t[:100])
+
+    guard = ex(body[0].test)
+    inner = clean(body[0].body)
+    want = ("for field_wrapper in wrapper.fields:\n    arg_value = constructor_args[field_wrapper.name]\n"
+            "    default_value = field_wrapper.default\n    if arg_value != default_value:\n        break\nelse:\n    return None")
+    import copy
+
+    class _NoLog(ast.NodeTransformer):
+        def visit_For(self, node):
+            self.generic_visit(node)
+            node.body = clean(node.body)
+            node.orelse = clean(node.orelse)
+            return node
+
+        def visit_If(self, node):
+            self.generic_visit(node)
+            node.body = clean(node.body)
+            return node
+
+    if len(inner) != 1 or unparse(_NoLog().visit(copy.deepcopy(inner[0]))) != want:
+        raise Unrecognised("_create_dataclass_instance: loop over the fields changed:\n" + unparse(inner[0])[:400] if inner else "empty")
+    return guard
+
+
+def _optional_child(dcw):
+    """DataclassWrapper.__init__: a member whose annotation contains a dataclass (Optional[Dc]) gets a child wrapper with
+    required = False (which switches `required` off on all its descendants) and optional = True"""
+    init = find_def(dcw, "__init__", cls="DataclassWrapper")
+    arms = [n for n in ast.walk(init) if isinstance(n, ast.If) and unparse(n.test) == "utils.contains_dataclass_type_arg(field_type)"]
+    if len(arms) != 1:
+        raise Unrecognised("DataclassWrapper.__init__: Optional[Dataclass] arm")
+    texts = [unparse(x) for x in clean(arms[0].body)]
+    for want in ("child_wrapper.required = False", "child_wrapper.optional = True", "self._children.append(child_wrapper)"):
+        if want not in texts:
+            raise Unrecognised(f"DataclassWrapper.__init__: `{want}` missing in the Optional[Dataclass] arm")
+    setter = [n for n in find_class(dcw, "DataclassWrapper").body if isinstance(n, ast.FunctionDef) and n.name == "required"
+              and any(unparse(d) == "required.setter" for d in n.decorator_list)]
+    if len(setter) != 1 or [unparse(x) for x in clean(setter[0].body)] != [
+            "self._required = value", "for field in self.fields:\n    field.required = value",
+            "for child_wrapper in self._children:\n    child_wrapper.required = value"]:
+        raise Unrecognised("DataclassWrapper.required setter")
+
+
 def emit(repo: str) -> str:
     utils = parse(repo, "simple_parsing/utils.py")
     parsing = parse(repo, "simple_parsing/parsing.py")
@@ -442,6 +515,8 @@ def emit(repo: str) -> str:
     manual = _fw_default(fw)
     ser = parse(repo, "simple_parsing/helpers/serialization/serializable.py")
     strip = _ctor_strip(parsing, ser)
+    guard = _opt_guard(parsing)
+    _optional_child(dcw)
     b = lambda x: "true" if x else "false"  # noqa: E731
     return (
         "From SPV Require Import Base.Str Model.Layers.\nOpen Scope string_scope.\n"
@@ -462,6 +537,9 @@ def emit(repo: str) -> str:
         f"Definition DISCARD_GEN : list string := {cstrs(discard)}.\n"
         f"Definition UNKNOWN_ERR_GEN : string := {cstr(unknown_err)}.\n"
         f"Definition manual_set_gen (d : ptree) : bool := {manual}.\n"
+        "(* _create_dataclass_instance: when an Optional member whose fields all hold their defaults is None *)\n"
+        "Definition opt_guard_gen (optional dset dinst : bool) : bool :=\n"
+        f"  {guard}.\n"
         "(* ArgumentParser._instantiate_dataclasses: keys popped from the constructor arguments *)\n"
         f"Definition CTOR_STRIP_GEN : list string := {cstrs(strip)}.\n"
         f"Definition CTOR_STRIPS_TYPE_KEY_GEN : bool := {b(all(k in strip for k in discard))}.\n"
@@ -472,13 +550,13 @@ def emit(repo: str) -> str:
         "Definition leaf_required_gen := leaf_required manual_set_gen.\n"
         "Definition set_default_tree_gen := set_default_tree DISCARD_GEN UNKNOWN_ERR_GEN.\n"
         "Definition has_unknown_gen := has_unknown DISCARD_GEN.\n"
-        "Definition finish_gen := finish manual_set_gen.\n"
-        "Definition finish_all_gen := finish_all manual_set_gen.\n"
+        "Definition finish_gen := finish manual_set_gen opt_guard_gen.\n"
+        "Definition finish_all_gen := finish_all manual_set_gen opt_guard_gen.\n"
         "Definition sd_wrappers_gen := sd_wrappers DISCARD_GEN UNKNOWN_ERR_GEN.\n"
         "Definition set_defaults_kwargs_gen := set_defaults_kwargs DISCARD_GEN UNKNOWN_ERR_GEN dict_union_gen.\n"
         "Definition rooted_gen := rooted reroot_gen.\n"
         "Definition set_defaults_file_gen := set_defaults_file DISCARD_GEN UNKNOWN_ERR_GEN dict_union_gen reroot_gen.\n"
         "Definition run_phase_gen := run_phase DISCARD_GEN UNKNOWN_ERR_GEN dict_union_gen reroot_gen CLI_DEFAULT_IS_CTOR_GEN.\n"
-        "Definition run_gen := run manual_set_gen DISCARD_GEN UNKNOWN_ERR_GEN dict_union_gen reroot_gen LAYER_ORDER_GEN CLI_DEFAULT_IS_CTOR_GEN CTOR_STRIP_GEN.\n"
+        "Definition run_gen := run manual_set_gen opt_guard_gen DISCARD_GEN UNKNOWN_ERR_GEN dict_union_gen reroot_gen LAYER_ORDER_GEN CLI_DEFAULT_IS_CTOR_GEN CTOR_STRIP_GEN.\n"
         "Definition extra_kwargs_gen := extra_kwargs CTOR_STRIP_GEN.\n"
     )
